@@ -133,6 +133,10 @@ class Circuit:
                     "be converted to a unitary matrix."
                 )
 
+        if not lifted_matrices:
+            # the empty product: a circuit without operations acts as the identity
+            return np.eye(2**self.n_qubits, dtype=complex)
+
         return reduce(operator.matmul, lifted_matrices)
 
     def bind(self, symbols_map: Dict[sympy.Symbol, Any]):
